@@ -4,7 +4,9 @@ A case is a box forest built directly from hio Box objects (over / unders links 
 trace-recording callables), driven through the real Boxer.run generator by a list of ops:
   ["start", first, fails]      next() + first send(): predo of first.pile, then enter it
   ["pass", gos, fails]         one send(): gos = [[box, goact index, dest], ...] are the goacts that return a box
-                               during this pass, fails = [[box, preact index], ...] the preacts that return False
+                               during this pass, fails = [[box, preact index(, value code)], ...] the preacts that
+                               return something other than True: code 0 False, 1 None, 2 0, 3 0.0, 4 '', 5 [] (falsy)
+                               6 1, 7 'x', 8 object(), 9 [0], 10 2.5 (truthy); no code = False
   ["end"]                      set the boxer's end bag, one send()
 The observation is, per op, the list of act calls [kind, box, index] and the boxer status afterwards.
 """
@@ -19,13 +21,44 @@ COQ_BRANCHES = ("Box.case_branches", "Box.n_branches")
 SHARD = 150
 RULE = ("box forests of 1-7 boxes (random over links, random order of unders so the primary under varies, 0-2 acts in "
         "each of the ten act lists of every box) built from real Box objects with trace-recording acts; op sequences "
-        "start / pass (scripted goacts and failing preacts) / end through the real Boxer.run generator; thorough adds "
+        "start / pass (scripted goacts; scripted preacts returning False, None, 0, 0.0, '', [] or truthy 1, 'x', object(), "
+        "[0], 2.5 instead of True) / end through the real Boxer.run generator; thorough adds "
         "every forest of <= 5 boxes x every (near, far) pair x every firing level through the model and every forest "
         "shape of <= 6 boxes through the direct oracle; non-trivial = forest depth >= 3 and a transition that retains "
         ">= 2 boxes or is rejected by a precondition")
 MODELLED = ["Python generator protocol of Boxer.run (as one model step per next/send)",
             "acts as trace-recording callables identified by (act list, box, index); the Hold bags run() writes are not modelled",
             "object identity of boxes (as equality of box numbers)"]
+
+# what a listed preact returns, by code; Box.predo must go by truthiness
+PVALUES = [lambda: False, lambda: None, lambda: 0, lambda: 0.0, lambda: "", lambda: [],
+           lambda: 1, lambda: "x", lambda: object(), lambda: [0], lambda: 2.5]
+PCOQ = ["Box.PFalse", "Box.PNone", "(Box.PInt 0%Z)", "(Box.PFloat true)", "(Box.PStr 0)", "(Box.PList 0)",
+        "(Box.PInt 1%Z)", "(Box.PStr 1)", "Box.PObj", "(Box.PList 1)", "(Box.PFloat false)"]
+
+
+def _code(e):
+    return e[2] if len(e) > 2 else 0
+
+
+def _falsy(fails):
+    """the (box, index) pairs whose listed value is falsy (first listing wins, as in the model)"""
+    seen, out = set(), set()
+    for e in fails:
+        k = (e[0], e[1])
+        if k not in seen:
+            seen.add(k)
+            if _code(e) <= 5:
+                out.add(k)
+    return out
+
+
+def _values(fails):
+    vals = {}
+    for e in fails:
+        vals.setdefault((e[0], e[1]), _code(e))
+    return vals
+
 
 KINDS = ["pre", "rm", "ren", "em", "en", "re", "af", "go", "ex", "rex"]
 K = {k: i for i, k in enumerate(KINDS)}
@@ -118,6 +151,13 @@ def directed():
         dict(f6, ops=[["start", 2, []], ["pass", [[0, 0, 5], [0, 1, 3]], [[5, 0]]],
                       ["pass", [[1, 0, 1]], []], ["pass", [[0, 0, 5], [1, 1, 0]], [[4, 1]]],
                       ["pass", [[2, 1, 2]], []], ["pass", [[1, 0, 5], [1, 1, 4]], [[5, 1], [4, 0]]], ["end"]]),
+        # preconditions returning falsy values other than False (None, 0, 0.0, '', []) reject; truthy non-True values admit
+        dict(f5, ops=[["start", 3, []], ["pass", [[3, 0, 4]], [[4, 0, 1]]], ["pass", [[3, 0, 4]], [[4, 0, 2]]],
+                      ["pass", [[3, 0, 4]], [[4, 0, 3]]], ["pass", [[3, 0, 4]], [[4, 0, 4]]], ["pass", [[3, 0, 4]], [[4, 0, 5]]],
+                      ["pass", [[3, 0, 4]], [[4, 0, 8]]], ["end"]]),
+        dict(f5, ops=[["start", 2, [[1, 0, 1]]], ["end"]]),
+        dict(f5, ops=[["start", 2, [[1, 0, 7], [2, 0, 10], [0, 0, 9]]], ["pass", [[2, 0, 3]], [[3, 0, 6]]], ["end"]]),
+        dict(f6, ops=[["start", 2, []], ["pass", [[0, 0, 5], [0, 1, 3]], [[5, 0, 4], [3, 1, 2]]], ["end"]]),
         # cross-tree transition, ops after the end are ignored
         dict(two, ops=[["start", 0, []], ["pass", [[0, 0, 2]], []], ["pass", [[1, 0, 0]], []], ["end"], ["pass", [], []], ["end"]]),
         # pass before start
@@ -151,7 +191,7 @@ def random_case(rng):
     if rng.random() < 0.1:
         p = spec_pile(f, first); b = rng.choice(p)
         if f["counts"][b][K["pre"]]:
-            sfail = [[b, rng.randrange(f["counts"][b][K["pre"]])]]
+            sfail = [[b, rng.randrange(f["counts"][b][K["pre"]]), rng.randrange(6)]]
     ops.append(["start", first, sfail])
     active = first
     for _ in range(rng.choice([1, 2, 3, 5, 8])):
@@ -167,7 +207,7 @@ def random_case(rng):
             if rng.random() < 0.3:
                 tgt = rng.choice(spec_pile(f, g[2]))
                 if f["counts"][tgt][K["pre"]]:
-                    fails.append([tgt, rng.randrange(f["counts"][tgt][K["pre"]])])
+                    fails.append([tgt, rng.randrange(f["counts"][tgt][K["pre"]]), rng.randrange(len(PVALUES))])
         ops.append(["pass", gos, fails])
         exp = _expected_pass(f, active, gos, fails)
         active = exp[1]
@@ -222,7 +262,7 @@ def run_impl(case):
     from hio.base.hier.boxing import Box, Boxer
     from hio.base.hier import Bag
     n = len(case["overs"])
-    trace, cur = [], {"gos": {}, "fails": set()}
+    trace, cur = [], {"gos": {}, "fails": {}}
     boxes = [Box(name=f"b{i}") for i in range(n)]
     for i, b in enumerate(boxes):
         b.over = boxes[case["overs"][i]] if case["overs"][i] is not None else None
@@ -232,7 +272,9 @@ def run_impl(case):
             for j in range(case["counts"][i][K[kind]]):
                 if kind == "pre":
                     def act(i=i, j=j):
-                        trace.append([K["pre"], i, j]); return (i, j) not in cur["fails"]
+                        trace.append([K["pre"], i, j])
+                        c = cur["fails"].get((i, j))
+                        return True if c is None else PVALUES[c]()
                 elif kind == "go":
                     def act(i=i, j=j):
                         trace.append([K["go"], i, j])
@@ -261,7 +303,7 @@ def run_impl(case):
         del trace[:]
         if op[0] == "start" and status == ["idle"]:
             boxer.first = boxes[op[1]]
-            cur["gos"], cur["fails"] = {}, {tuple(x) for x in op[2]}
+            cur["gos"], cur["fails"] = {}, _values(op[2])
             gen = boxer.run(tock=0.0)
             drive(lambda: next(gen))
             if status[0] == "active":
@@ -269,11 +311,11 @@ def run_impl(case):
         elif op[0] == "pass" and status[0] == "active":
             tyme += 1.0
             cur["gos"] = {(b, k): d for b, k, d in op[1]}
-            cur["fails"] = {tuple(x) for x in op[2]}
+            cur["fails"] = _values(op[2])
             drive(lambda: gen.send(tyme))
         elif op[0] == "end" and status[0] == "active":
             tyme += 1.0
-            cur["gos"], cur["fails"] = {}, set()
+            cur["gos"], cur["fails"] = {}, {}
             boxer.hold[("", "boxer", "bxr", "end")] = Bag(value=True)
             drive(lambda: gen.send(tyme))
         obs.append({"status": list(status), "trace": [list(e) for e in trace]})
@@ -291,9 +333,10 @@ def _acts(case, kinds, boxes):
 
 
 def _pre_ok(case, fails, boxes):
+    fails = _falsy(fails)
     for b in boxes:
         for j in range(case["counts"][b][K["pre"]]):
-            if [b, j] in fails:
+            if (b, j) in fails:
                 return False
     return True
 
@@ -388,12 +431,16 @@ def _pairs(l):
     return coq_list([f"({a}, {b})" for a, b in l], "nat * nat")
 
 
+def _fails(l):
+    return coq_list([f"({e[0]}, {e[1]}, {PCOQ[_code(e)]})" for e in l], "nat * nat * Box.pyv")
+
+
 def _op(op):
     if op[0] == "start":
-        return f"(Box.Start {op[1]} {_pairs(op[2])})"
+        return f"(Box.Start {op[1]} {_fails(op[2])})"
     if op[0] == "pass":
         gos = coq_list([f"({b}, {k}, {d})" for b, k, d in op[1]], "nat * nat * nat")
-        return f"(Box.Pass {gos} {_pairs(op[2])})"
+        return f"(Box.Pass {gos} {_fails(op[2])})"
     return "Box.End"
 
 
